@@ -48,7 +48,7 @@ CASES["C07"] = [
     ("weave: if-branch deletion loop removed", "mutant", WEAVE,
      "                    for accel in [k for k in state if k not in if_state or k not in else_state]:\n                        del state[accel]\n", "", ["C07.weave-kill"]),
     ("weave: relink to op.in_state", "mutant", WEAVE,
-     "                            op.accelerator,\n                            state[accel],\n", "                            op.accelerator,\n                            op.in_state,\n", ["C07.weave-link"]),
+     "                            op.accelerator,\n                            state.get(accel),\n", "                            op.accelerator,\n                            op.in_state,\n", ["C07.weave-link"]),
     ("weave: out_state recorded only when relinked", "mutant", WEAVE,
      "                        op = new_op\n                    state[accel] = op.out_state\n", "                        op = new_op\n                        state[accel] = op.out_state\n", ["C07.weave-link"]),
     # twins
@@ -683,3 +683,20 @@ def _seeded_cases() -> None:
 
 
 _seeded_cases()
+
+CASES["C03"] += [
+    ("twin: rotate returns self for the identity rotation", "twin", "snaxc/ir/dart/access_pattern.py", "        new_bounds = self.bounds[1:dim] + self.bounds[:1] + self.bounds[dim:]", "        if dim <= 1:\n            return self\n        new_bounds = self.bounds[1:dim] + self.bounds[:1] + self.bounds[dim:]", []),
+]
+
+CASES["C06"] += [
+    ("reintroduce F-29 (producers with regions moved)", "mutant", "snaxc/inference/scoped_setups.py", "@revert:8916250~1", "", ["C06.closure-pure"]),
+]
+
+CASES["C07"] += [
+    ("reintroduce F-30 (setups in unknown region ops invisible outside)", "mutant", "snaxc/transforms/convert_linalg_to_accfg.py", "@revert:12f8e19~1", "", ["C07.weave-nested"]),
+    ("twin: nested accelerators dropped with del", "twin", "snaxc/transforms/convert_linalg_to_accfg.py", "                        for accel in find_all_acc_names_in_region(region):\n                            state.pop(accel, None)", "                        for accel in find_all_acc_names_in_region(region):\n                            if accel in state:\n                                del state[accel]", []),
+]
+
+CASES["C07"] += [
+    ("reintroduce F-31 (stale pre-threaded in_state kept)", "mutant", "snaxc/transforms/convert_linalg_to_accfg.py", "@revert:3b5c6cd~1", "", ["C07.weave-link"]),
+]
